@@ -157,7 +157,8 @@ def h_atan2(c):
     if mode == 'x':
         b = np.zeros_like(b)
     got = cs_safe.arctan2(y, x)
-    ref = np.arctan2(a, cc)
+    # (building a + i*h*b turns a = -0.0 into +0.0: the reference takes the real parts actually passed)
+    ref = np.arctan2(np.real(y), np.real(x))
     imh, bounds = [], []
     for k in range(len(a)):
         if got[k].real != ref[k]:
